@@ -2,6 +2,7 @@
 the control-flow graph of the code each arm emits)."""
 from mirlib import *
 from rules import csa_run
+from rules import shared as _shared
 
 META = {
     'title': 'Structured control flow goes exactly where the source says',
@@ -91,6 +92,14 @@ def run(ctx, rep):
     if not n8:
         rep.good('R11.8', COMPILER + '::compile_ast', 'error exits (CSA)', '%d error exits of the top-level driver examined: no loop context, no peephole record survives' % len(R.get('toperrs', [])), 'src/compiler.rs')
 
+    rep.rule('R11.10', 'a block runs every one of its statements unless one of them really leaves: the compiler translates each statement of a block, a branch and a loop body (no statement is dropped because an earlier one `looks` final)')
+    n10 = 0
+    for v in R['violations']:
+        if v['oblig'] == 'R09.6':
+            n10 += 1
+            rep.bad('R11.10', COMPILER + '::' + v['method'], v['construct'], v['text'], 'src/compiler.rs', key=v['kc'])
+    if not n10:
+        rep.good('R11.10', COMPILER, 'loops over statement lists', 'no loop of the compiler over a list of syntax-tree nodes has an early exit other than an error', 'src/compiler.rs')
     # CSA violations on the control-flow arms
     for v in R['violations']:
         c = v['construct']
@@ -110,6 +119,8 @@ def run(ctx, rep):
             rep.bad(rule, COMPILER + '::' + v['method'], '%s %s' % (ob, c), v['text'], 'src/compiler.rs', key='%s %s' % (v['oblig'], v['kc']))
 
     check_cfg(ctx, rep, {r: r for r in ('R11.1', 'R11.2', 'R11.3', 'R11.5')})
+    rep.rule('R11.9', 'the jump placeholder is only written, never read back: no code compares a value with it, so a jump whose real target equals the placeholder is an ordinary jump')
+    _shared.check_placeholder_write_only(ctx, rep, 'R11.9')
 
 
 def check_cfg(ctx, rep, m, pfx=''):
